@@ -74,6 +74,7 @@ type Action struct {
 	Payload uint64
 	Mode    uint64
 	Discard bool
+	Once    bool // harness-only: performed at most once per actor context (monitor-only scenarios, not replayed on the model)
 }
 
 type Spec struct {
@@ -235,6 +236,7 @@ type run struct {
 	curExt   int
 	panicked string
 	sends    map[uint64]int
+	onceDone map[string]bool
 }
 
 func (r *run) keyOf(c *actor.Context) key {
@@ -457,6 +459,13 @@ func spawnCode(err error) uint64 {
 }
 
 func (r *run) exec(c apiCtx, full vivid.ActorContext, who key, a Action, ext int, mode func(uint64) vivid.Behavior) {
+	if a.Once {
+		k := fmt.Sprintf("%v/%d/%d", who, a.K, a.Tag)
+		if r.onceDone[k] {
+			return
+		}
+		r.onceDone[k] = true
+	}
 	switch a.K {
 	case aTell:
 		r.sends[a.Tag]++
@@ -576,7 +585,7 @@ func execute(scripts [][]Action, choose func([]int, int) int) result {
 	if err := sys.Start(); err != nil {
 		panic(err)
 	}
-	r := &run{sys: sys, sends: map[uint64]int{}, keys: map[*actor.Context]key{}, perPath: map[string]int{}, refKey: map[vivid.ActorRef]key{}, held: make([][]vivid.ActorRef, len(scripts))}
+	r := &run{sys: sys, onceDone: map[string]bool{}, sends: map[uint64]int{}, keys: map[*actor.Context]key{}, perPath: map[string]int{}, refKey: map[vivid.ActorRef]key{}, held: make([][]vivid.ActorRef, len(scripts))}
 	root := actor.XVRoot(sys)
 	rootKey := r.keyOf(root)
 	s := vsched.New(choose)
@@ -1096,6 +1105,28 @@ func (g *gen) streamScenario() [][]Action {
 	return scripts
 }
 
+// spawn-while-stopping scenario (monitor-only: uses the harness-only Once flag, which the model does not have):
+// a parent that is being killed spawns a replacement child from its OnKilled(child) handler
+func (g *gen) killSpawnScenario() [][]Action {
+	g.names = nil
+	z := &Spec{Name: 9, Prelaunch: true}
+	nch := 1 + g.r.Intn(3)
+	p := &Spec{Name: 1, Prelaunch: true, Strategy: g.r.Intn(3)}
+	for i := 1; i <= nch; i++ {
+		c := &Spec{Name: uint64(i), Prelaunch: true}
+		if g.r.Chance(1, 3) {
+			c.Launch = []Action{{K: aSpawn, Spec: &Spec{Name: 1, Prelaunch: true}}}
+		}
+		p.Launch = append(p.Launch, Action{K: aSpawn, Spec: c})
+	}
+	p.Killed = []Action{{K: aSpawn, Spec: z, Once: true, Tag: 1}}
+	if g.r.Bool() {
+		p.Kill = []Action{{K: aSpawn, Spec: &Spec{Name: 8, Prelaunch: true}}}
+	}
+	main := []Action{{K: aSpawn, Spec: p}, {K: aTell, R: RX{K: 4, P: []uint64{1, 1}}, Tag: g.tag()}, {K: aKill, R: RX{K: 4, P: []uint64{1}}, Poison: g.r.Bool()}}
+	return [][]Action{main}
+}
+
 // all user-message tags a scenario can send
 func collectTags(as []Action, out map[uint64]bool) {
 	for _, a := range as {
@@ -1253,6 +1284,29 @@ func (h *H) monitors(scripts [][]Action, res result, in lib.T) {
 			killedSeenBy[k][fmt.Sprintf("%v", s.who)]++
 		}
 	}
+	// ---- C06: an actor sees its own OnKilled only after every descendant has seen its own (children first)
+	ownKilledAt := map[key]int{}
+	for i, s := range res.seens {
+		if s.kind == 3 && s.ref == s.who.path {
+			ownKilledAt[s.who] = i
+		}
+	}
+	for anc, ia := range ownKilledAt {
+		for desc, id := range ownKilledAt {
+			if desc.path != anc.path && strings.HasPrefix(desc.path, strings.TrimSuffix(anc.path, "/")+"/") && id > ia {
+				// only meaningful when the descendant was alive when the ancestor terminated: it saw OnLaunch before that point
+				launched := false
+				for j := 0; j < ia; j++ {
+					if res.seens[j].who == desc && res.seens[j].kind == 1 {
+						launched = true
+					}
+				}
+				if launched {
+					h.o.Monitor("c06-parent-before-descendant", in, fmt.Sprintf("%v saw its own OnKilled before its descendant %v did", anc, desc))
+				}
+			}
+		}
+	}
 	gensOf := map[string]int{}
 	for _, f := range res.finals {
 		if f.k.gen+1 > gensOf[f.k.path] {
@@ -1370,6 +1424,24 @@ func main() {
 			return res.choices
 		})
 	}
+	// monitor-only scenarios (harness-only script features; not replayed on the model)
+	mo := 12
+	if f.Tier == "thorough" {
+		mo = 300
+	}
+	for i := 0; i < mo; i++ {
+		sc := g.killSpawnScenario()
+		rr := r.Fork()
+		res := execute(sc, vsched.StickyChooser(rr.Intn, 2+r.Intn(10)))
+		h.o.Stats["monitor-only-runs"]++
+		in := lib.L(lib.N(424242), lib.NI(i))
+		if res.overrun {
+			h.o.Monitor("no-quiescence", in, "spawn-while-stopping scenario: "+res.stuck)
+			continue
+		}
+		h.monitors(sc, res, in)
+	}
+	o.Info["monitor_only_scenarios"] = mo
 	o.Info["dfs_scenarios"] = dfsScen
 	o.Info["dfs_preemption_bound"] = bound
 	o.Info["dfs_runs"] = total
